@@ -409,7 +409,8 @@ def oracle_real_all(case: dict, r: Any) -> List[Tuple[str, str]]:
     never hide another violation on the same input)."""
     out: List[Tuple[str, str]] = []
     if r.get('hang'):
-        return [('hang', 'no result within %ss (wall clock) for %s/%s' % (r.get('limit_s'), case['fmt'], case['kind']))]
+        return [('hang', 'no result within %ss (wall clock): building and rendering a %s whose %s docstring is %r does not terminate'
+                 % (r.get('limit_s'), case['kind'], case['fmt'], case['text'][:120]))]
     if r.get('crashed'):
         return [('crash', 'interpreter died (rc=%s)' % r.get('rc'))]
     if r.get('worker_error'):
@@ -949,10 +950,10 @@ class Check(PropertyCheck):
         impl = lib.run_impl_worker(WORKER, cases, jobs=16, timeout=3400)
         # a call that did not finish within the limit is confirmed alone, with a three times longer limit, before it is
         # called a hang (the machine is shared)
-        hung = [i for i, r in enumerate(impl) if r.get('hang')][:4]
+        hung = [i for i, r in enumerate(impl) if r.get('hang')][:3]
         if hung:
             old = os.environ.get('C08_CALL_LIMIT')
-            os.environ['C08_CALL_LIMIT'] = '75'
+            os.environ['C08_CALL_LIMIT'] = '60'
             try:
                 for i in hung:
                     r2 = lib.run_impl_worker(WORKER, [cases[i]], timeout=400)[0]
